@@ -1,11 +1,47 @@
-(* Statement pins for C20: each property theorem is re-checked against the statement recorded here. *)
+(* Statement pins for C20: each property theorem is re-checked against the statement recorded here, so
+   a theorem cannot be weakened in its own file without this file failing to compile. *)
 From BT Require Import Base.Util.
-From BT Require Model.PyArrays Properties.C20.
+From BT Require Model.PyArrays Proofs.PyArraysCover Proofs.PyArraysBed Properties.C20.
 
 Module PinC20.
-Import Model.PyArrays Properties.C20.
+Import Model.PyArrays Proofs.PyArraysCover Proofs.PyArraysBed Properties.C20.
 Local Open Scope Z_scope.
 Check (C20_bin_index_spec : forall pos span bins, 0 <= pos < span -> 0 < bins ->
   let k := bin_index pos span bins in
   0 <= k < bins /\ bin_edge k span bins <= pos < bin_edge (k + 1) span bins).
+Check (C20_per_base : forall touch len vals ents s e st missing oob,
+  wig_ok 0 len vals -> bed_ok 0 len ents -> s < e ->
+  values_wig len vals s e None st missing oob
+    = Ok (map (base_cell (wig_at vals) len missing oob) (seqZ s (Z.to_nat (e - s))))
+  /\ values_bed touch len ents s e None st missing oob
+    = Ok (map (base_cell (bed_at ents) len missing oob) (seqZ s (Z.to_nat (e - s))))).
+Check (C20_bins : forall touch len vals ents s e bins st missing oob,
+  wig_ok 0 len vals -> bed_ok 0 len ents -> s < e -> 0 < bins <= e - s ->
+  values_wig len vals s e (Some bins) st missing oob
+    = Ok (map (fun k => bin_cell (wig_at vals) len st missing oob
+                          (s + bin_edge k (e - s) bins) (s + bin_edge (k + 1) (e - s) bins))
+              (seqZ 0 (Z.to_nat bins)))
+  /\ values_bed touch len ents s e (Some bins) st missing oob
+    = Ok (map (fun k => bin_cell (bed_at ents) len st missing oob
+                          (s + bin_edge k (e - s) bins) (s + bin_edge (k + 1) (e - s) bins))
+              (seqZ 0 (Z.to_nat bins)))).
+Check (C20_bins_nan_free : forall touch len vals ents s e obins st m o,
+  wig_ok 0 len vals -> bed_ok 0 len ents -> s < e ->
+  match obins with Some bins => 0 < bins <= e - s | None => True end ->
+  exists cw cb, values_wig len vals s e obins st (FV m) (FV o) = Ok cw
+             /\ values_bed touch len ents s e obins st (FV m) (FV o) = Ok cb
+             /\ Forall (fun c => exists n d, c = OQ n d /\ 0 < d) cw
+             /\ Forall (fun c => exists n d, c = OQ n d /\ 0 < d) cb).
+Check (C20_oob : forall touch len vals ents s e st missing oob,
+  wig_ok 0 len vals -> bed_ok 0 len ents -> s < e ->
+  (exists cw cb, values_wig len vals s e None st missing oob = Ok cw
+              /\ values_bed touch len ents s e None st missing oob = Ok cb
+              /\ forall p, s <= p < e -> p < 0 \/ len <= p ->
+                   nth (Z.to_nat (p - s)) cw ONaN = out_of_fl oob /\ nth (Z.to_nat (p - s)) cb ONaN = out_of_fl oob)
+  /\ forall bins, 0 < bins <= e - s ->
+     exists cw cb, values_wig len vals s e (Some bins) st missing oob = Ok cw
+                /\ values_bed touch len ents s e (Some bins) st missing oob = Ok cb
+                /\ forall k, 0 <= k < bins ->
+                     s + bin_edge k (e - s) bins < 0 \/ len < s + bin_edge (k + 1) (e - s) bins ->
+                     nth (Z.to_nat k) cw ONaN = out_of_fl oob /\ nth (Z.to_nat k) cb ONaN = out_of_fl oob).
 End PinC20.
